@@ -72,6 +72,11 @@ CheckUpdate(e) ==
        IF ~(known \subseteq affected) THEN Note(e, "changed-outside-spec-reads", known \ affected) ELSE TRUE
     /\ IF ~e.composite /\ ~(specObj \subseteq realObj)
        THEN Note(e, "object-chain-misses", specObj \ realObj) ELSE TRUE
+    \* one public edit is one update transaction: exactly one ModelingUpdate carries changes; `x += l`, `x *= n` and the
+    \* creation of a usage pattern inside a system build a second, empty one (the re-assignment of the mutated list)
+    /\ LET begins == IF e.edit_kind \in {"listop:iadd", "listop:imul", "add_up"} THEN 2 ELSE 1 IN
+       IF e.n_nonempty_updates # 1 \/ e.n_update_begin # begins
+       THEN Note(e, "edit-is-not-exactly-one-update", <<e.edit_kind, e.n_update_begin, e.n_nonempty_updates>>) ELSE TRUE
     /\ LET missing == {it \in specItems \ SeqSet(chain) : it[1] \in Reachable(T)} IN
        IF ~e.composite /\ missing # {} THEN Note(e, "attr-chain-misses", missing) ELSE TRUE
 
